@@ -81,7 +81,20 @@ def base_files():
                                    {"type": elfgen.PT_TLS, "flags": 4, "vaddr": 0x402010, "data": b"", "offset": 0x1000, "filesz": 8, "memsz": 16, "align": 8},
                                    {"type": elfgen.PT_TLS, "flags": 4, "vaddr": 0x700000, "data": b"", "offset": 0x1000, "filesz": 8, "memsz": 16, "align": 8}],
                         symbols=[("_start", 0x401000, 1)])
-    files = {"gen": gen, "tls": tls, "tls2": tls2}
+    # symbol names are input too: long, non-ASCII (multi-byte characters at every offset around 64 / 128 / 256), not valid UTF-8
+    names = [("_start", 0x401000, 1), ("x" * 300, 0x401004, 1), (b"\xff\xfe\x80bad", 0x401008, 1), ("", 0x40100c, 1)]
+    for k, pad in enumerate((61, 62, 63, 64, 65, 125, 126, 127, 128, 253, 254, 255, 256)):
+        names.append(("a" * pad + "\u00e9\u4e2d\U0001f600" * 3 + "z" * 40, 0x401010 + 4 * k, 1))
+    symf = elfgen.build(0x401000, [{"type": elfgen.PT_LOAD, "flags": 5, "vaddr": 0x401000, "data": bytes([0x90] * 128)}], symbols=names)
+    # dynamic-linking headers: PT_INTERP (empty, one byte, a path) and PT_DYNAMIC, in the file and beyond its end
+    def dyn(interp_data, off=None):
+        h = {"type": elfgen.PT_INTERP, "flags": 4, "vaddr": 0x400200, "data": interp_data}
+        if off is not None:
+            h.update({"offset": off, "filesz": 0, "data": b""})
+        return elfgen.build(0x401000, [{"type": elfgen.PT_LOAD, "flags": 5, "vaddr": 0x401000, "data": code}, h,
+                                       {"type": elfgen.PT_DYNAMIC, "flags": 6, "vaddr": 0x402000, "data": bytes(32)}])
+    files = {"gen": gen, "tls": tls, "tls2": tls2, "sym": symf, "interp0": dyn(b"", 0x100), "interp1": dyn(b"\0"),
+             "interp": dyn(b"/lib64/ld-linux-x86-64.so.2\0")}
     hw = "/repo/testdata/hello_world.bin"
     if os.path.exists(hw):
         files["hello"] = open(hw, "rb").read()
